@@ -39,3 +39,47 @@ Theorem C05_termination_returns_to_parent_killed :
     within c.
 Proof. exact call_status_truthful. Qed.
 Print Assumptions C05_termination_returns_to_parent_killed.
+
+(* ---- exact, deterministic, monotone (Ctx/Exact.v) ---- *)
+From GV Require Import Ctx.Exact.
+
+(* The same abstract program (any tree of CPU/memory requests, releases and
+   nested CallContext calls with their own limits) run under limits L1 <= L2:
+   if under L2 it comes back having used less than L1, then under L1 it comes
+   back the same way, with the same usage and status.  A limit above the usage
+   never changes behaviour, accounting does not depend on the limit, and
+   completing is monotone in the limit. *)
+Theorem C05_limit_above_usage_same_behaviour :
+  forall L1 L2 l, 0 < L1 <= L2 -> L2 < SMALL -> acts_ok2 l ->
+  let '(m2', r2) := exec (limited L2) l in
+  cpu (used (cur m2')) < L1 ->
+  let '(m1', r1) := exec (limited L1) l in
+  r1 = r2 /\ used (cur m1') = used (cur m2') /\ st (cur m1') = st (cur m2').
+Proof. exact limit_above_usage_same_behaviour. Qed.
+Print Assumptions C05_limit_above_usage_same_behaviour.
+
+(* Total consumption never decreases along an execution (what makes "usage"
+   a well-defined number). *)
+Theorem C05_accounting_monotone :
+  forall l m, Inv m -> calm m -> lim_top m -> acts_ok2 l -> tot m <= tot (fst (exec m l)).
+Proof. exact (proj2 tot_mono). Qed.
+Print Assumptions C05_accounting_monotone.
+
+(* Without nested boundaries: killed exactly for the limits L <= usage. *)
+Theorem C05_flat_kill_exact :
+  forall L xs, 0 < L < SMALL -> Forall (fun x => 0 <= x) xs -> usage xs < SMALL ->
+  let '(m', r) := exec (limited L) (flat xs) in
+  (r = Terminated <-> L <= usage xs) /\
+  (usage xs < L -> r = Normal /\ cpu (used (cur m')) = usage xs /\ st (cur m') = Live) /\
+  (r = Terminated -> cpu (used (cur m')) < L /\ st (cur m') = Killed).
+Proof. exact flat_kill_exact. Qed.
+Print Assumptions C05_flat_kill_exact.
+
+(* "Killed exactly for L <= u" does NOT hold through a nested boundary, on
+   the model as on the code (known finding C05-termination-returned-to-lua):
+   the nested context is killed, the outer one carries on. *)
+Theorem C05_nested_kill_is_intercepted_refuted :
+  (let '(m, r) := exec (limited 100000) intercept_witness in r = Normal /\ cpu (used (cur m)) = 1015) /\
+  (let '(m, r) := exec (limited 100) intercept_witness in r = Normal /\ cpu (used (cur m)) = 15 /\ st (cur m) = Live).
+Proof. exact nested_kill_is_intercepted_refuted. Qed.
+Print Assumptions C05_nested_kill_is_intercepted_refuted.
